@@ -49,6 +49,15 @@ pub const ROOTS: &[Root] = &[
     Root { name: "italian", fen: "r1bqk1nr/pppp1ppp/2n5/2b1p3/2B1P3/5N2/PPPP1PPP/RNBQK2R w KQkq - 4 4", class: 2 },
     Root { name: "sicilian-b", fen: "rnbqkbnr/pp1ppppp/8/2p5/4P3/5N2/PPPP1PPP/RNBQKB1R b KQkq - 1 2", class: 2 },
     Root { name: "knights-tour", fen: "4k3/8/8/8/8/8/8/N3K2N w - - 0 1", class: 0 },
+    // castling rights with the enemy king next to the castling path (only a king attacks the path)
+    Root { name: "castle-near-king-ws", fen: "3r4/8/8/8/8/8/6k1/4K2R w K - 0 1", class: 0 },
+    Root { name: "castle-near-king-wl", fen: "6r1/8/8/8/8/8/2k5/R3K3 w Q - 0 1", class: 0 },
+    Root { name: "castle-near-king-bs", fen: "4k2r/6K1/8/8/8/8/8/3R4 b k - 0 1", class: 0 },
+    Root { name: "castle-near-king-bl", fen: "r3k3/2K5/8/8/8/8/8/6R1 b q - 0 1", class: 0 },
+    Root { name: "castle-near-king-wq", fen: "3r4/8/8/8/8/8/1k6/R3K3 w Q - 0 1", class: 0 },
+    // locked fortresses: both sides can only shuttle a king, long stretches of single legal moves
+    Root { name: "fortress", fen: "5b1k/4p1p1/4P1P1/8/7p/1p1p4/1P1P3P/K1B5 w - - 0 1", class: 0 },
+    Root { name: "fortress-b", fen: "k1b5/1p1p3p/1P1P4/7P/8/4p1p1/4P1P1/5B1K b - - 0 1", class: 0 },
 ];
 
 /// Perpetual-check lines: (root, moves). After the moves the side to move has a single legal move, which is the
